@@ -261,6 +261,36 @@ class Repo:
                         out.append(c)
         return out
 
+    def raw_methods(self, ci):
+        """name -> FunctionDef of the class chain as written in the source (helpers not inlined): what an
+        interpretation of the class's objects executes."""
+        out = {}
+        for c in reversed(self.class_mro(ci)):
+            mod = c.module
+            if not hasattr(mod, "_raw_tree"):
+                mod._raw_tree = ast.parse(mod.src)
+            body = mod._raw_tree.body
+            node = None
+            for part in c.name.split("."):
+                node = None
+                stack = list(body)
+                while stack:
+                    st = stack.pop(0)
+                    if isinstance(st, (ast.ClassDef, ast.FunctionDef)) and st.name == part:
+                        node = st
+                        break
+                    if isinstance(st, (ast.If, ast.Try, ast.With, ast.For, ast.While)):
+                        for fld in ("body", "orelse", "finalbody"):
+                            stack.extend(getattr(st, fld, []) or [])
+                if node is None:
+                    break
+                body = node.body
+            if isinstance(node, ast.ClassDef):
+                for st in node.body:
+                    if isinstance(st, ast.FunctionDef):
+                        out[st.name] = st
+        return out
+
     def find_method(self, ci, name):
         for c in self.class_mro(ci):
             if name in c.methods:
